@@ -415,47 +415,56 @@ def Task.awaitedK (tbl : Table) (t : Task) : Nat :=
   | .next k => k
   | _ => 0
 
+/-- `task.step(send_val)` up to the point where the coroutine resumes: reset the await flags,
+    hand the awaited value to the body -/
+def resume (tbl : Table) (t1 : Task) (val : Option Val) : Task × List Ev :=
+  let t2 := { t1 with wakeNext := false, desired := none }
+  let evs0 : List Ev := if t2.started then [] else [Ev.start t2.tag]
+  if t2.atAwait then
+    ({ t2 with seen := t2.seen ++ [val.getD [9]], pc := t2.pc + 1, atAwait := false },
+     evs0 ++ [Ev.saw t2.tag (t2.awaitedK tbl) (val.getD [9])])
+  else ({ t2 with started := true }, evs0)
+
+/-- what `_try_step_next_ready_task` does after the coroutine stopped -/
+def finishStep (r : Run) : Outcome → StepOut
+  | .awaitF m nxt =>
+    match processAwait r m nxt with
+    | some r1 => { w := { r1.w with tasks := taskSet r1.w.tasks r1.t }, out := r1.out, evs := r1.evs }
+    | none =>
+      -- raised outside the coroutine: the body stays suspended for ever
+      if r.w.cancelled.any (fun a => r.t.descOf a) then
+        { w := { r.w with tasks := taskSet r.w.tasks r.t }, out := r.out, evs := r.evs }
+      else
+        { w := { r.w with tasks := taskSet r.w.tasks r.t },
+          out := r.out ++ [Msg.error r.t.comp eAwaitGone], evs := r.evs }
+  | .done v =>
+    if (processCompletion r v).2 then
+      { w := { (processCompletion r v).1.w with mainDead := true },
+        out := (processCompletion r v).1.out ++ [Msg.sysError eKey],
+        evs := (processCompletion r v).1.evs }
+    else { w := (processCompletion r v).1.w, out := (processCompletion r v).1.out,
+           evs := (processCompletion r v).1.evs }
+  | .err cls isRt => bubbleErr r.w r.t r.out r.evs cls isRt
+
+/-- run the picked task `t0` for one step (`out` = what `_get_next_ready_task` already sent) -/
+def stepTask (tbl : Table) (w : Worker) (out : List Msg) (t0 : Task) : StepOut :=
+  match desiredResult w t0 with
+  | .error cls =>
+    -- raised before `task.step`: the coroutine is untouched, never a RuntimeError
+    { w := w, out := out ++ [Msg.error t0.comp cls], evs := [] }
+  | .ok (w1, t1, val) =>
+    if !t1.live then
+      bubbleErr w1 { t1 with wakeNext := false, desired := none } out [] eRuntime true
+    else
+      let rb := runBody tbl ((tbl.getD t1.prog []).length + 2)
+        { w := w1, t := (resume tbl t1 val).1, out := out, evs := (resume tbl t1 val).2 }
+      finishStep rb.1 rb.2
+
 /-- one iteration of `Worker._loop` = `_try_step_next_ready_task` -/
 def Worker.step (tbl : Table) (w0 : Worker) : StepOut :=
   let p := Worker.pick w0.pickFuel { w0 with blocked := false }
   match p.task with
   | none => { w := p.w, out := p.out, evs := [] }
-  | some t0 =>
-    let w := p.w
-    match desiredResult w t0 with
-    | .error cls =>
-      -- raised before `task.step`: the coroutine is untouched, never a RuntimeError
-      { w := w, out := p.out ++ [Msg.error t0.comp cls], evs := [] }
-    | .ok (w1, t1, val) =>
-      -- task.step(): reset the await flags, resume the coroutine
-      let t2 := { t1 with wakeNext := false, desired := none }
-      if !t2.live then bubbleErr w1 t2 p.out [] eRuntime true
-      else
-        let evs0 : List Ev := if t2.started then [] else [Ev.start t2.tag]
-        let (t3, evs1) : Task × List Ev :=
-          if t2.atAwait then
-            let v := val.getD [9]
-            ({ t2 with seen := t2.seen ++ [v], pc := t2.pc + 1, atAwait := false },
-             evs0 ++ [Ev.saw t2.tag (t2.awaitedK tbl) v])
-          else ({ t2 with started := true }, evs0)
-        let fuel := (tbl.getD t3.prog []).length + 2
-        let (r, oc) := runBody tbl fuel { w := w1, t := t3, out := p.out, evs := evs1 }
-        match oc with
-        | .awaitF m nxt =>
-          match processAwait r m nxt with
-          | some r1 => { w := { r1.w with tasks := taskSet r1.w.tasks r1.t }, out := r1.out,
-                         evs := r1.evs }
-          | none =>
-            -- raised outside the coroutine: the body stays suspended for ever
-            let w2 := { r.w with tasks := taskSet r.w.tasks r.t }
-            if w2.cancelled.any (fun a => r.t.descOf a) then { w := w2, out := r.out, evs := r.evs }
-            else { w := w2, out := r.out ++ [Msg.error r.t.comp eAwaitGone], evs := r.evs }
-        | .done v =>
-          let (r1, crashed) := processCompletion r v
-          if crashed then
-            { w := { r1.w with mainDead := true }, out := r1.out ++ [Msg.sysError eKey],
-              evs := r1.evs }
-          else { w := r1.w, out := r1.out, evs := r1.evs }
-        | .err cls isRt => bubbleErr r.w r.t r.out r.evs cls isRt
+  | some t0 => stepTask tbl p.w p.out t0
 
 end BqVerif.Runtime
